@@ -1,22 +1,51 @@
 """Source translator (DESIGN 5.1b): regenerates Gallina definitions from the CURRENT text of netaddr/ip/__init__.py
-(and the three constants width/version/max_int of netaddr/strategy/ipv4.py, ipv6.py) on every run -> coq/Gen/pysrc_gen.v.
-coq/Proofs/GenOk_Src.v proves every generated definition equal to the hand-written model function of coq/Model/*.v, so a
-source edit that changes a translated method changes the generated term and the equality stops compiling.
+(and the three constants width/version/max_int of netaddr/strategy/ipv4.py, ipv6.py) on every run -> coq/Gen/pysrc_gen.v
+(methods) and coq/Gen/pysrc_span_gen.v, pysrc_partition_gen.v, pysrc_iprange_gen.v (module-level functions, one file per
+property so that a definition Coq rejects cannot take unrelated obligations down).  coq/Proofs/GenOk_Src_*.v prove every
+generated definition equal to the hand-written model function of coq/Model/*.v, so a source edit that changes a translated
+function changes the generated term and the equality stops compiling.
 
 Pure `ast` on the file text (netaddr is never imported), deterministic, ASCII output, FAIL CLOSED: any node outside the
-subset below raises Untranslatable("<file>:<line>: <why>").  A method that cannot be translated (or that depends on one)
+subset below raises Untranslatable("<file>:<line>: <why>").  A function that cannot be translated (or that depends on one)
 is emitted as a constant whose one-constructor type is named after that message, so exactly the lemmas (and the `Cxx_source_tie`
 obligations) that mention it stop compiling, with the message in the Coq error; a missing/unparsable source file raises out of generate().
 
-Subset.  Statements: docstring, pass, `x = e`, `x op= e`, `self._value = e` / `self._prefixlen = e` (recorded as the new
-state), if/elif/else, `if not isinstance(x, _int_type): ...` on a parameter declared `sarg` (becomes `match x with SInt x`),
-return, raise Name(...) (message ignored).  Expressions: int literals, + - * // % & | ^ << >> **, unary -, not/and/or,
-(chained) comparisons on ints, int(e), bool(e), tuples of ints (-> list Z), None, the fixed attribute environment ATTRS,
-reads of translated properties / calls of translated methods of the same object, and the constructor calls
-IPAddress(e, ver) / self.__class__(e, ver) / klass(e, ver) -> (mk_addr ver e), IPNetwork((e1, e2), version=ver) -> (mk_net ver e1 e2)
-(Model/SrcPrelude.v).  Conventions (DESIGN 3): Python ints are Z; a shift count that depends on a method parameter gets
-CPython's `ValueError: negative shift count` guard, a count built from object state and literals only is taken as
-non-negative (class invariant 0 <= prefixlen <= width); method parameters are ints unless declared otherwise in WHITELIST.
+Subset.  Statements: docstring, pass, `x = e`, `x op= e`, `a, b, c = e`, `self._value = e` / `self._prefixlen = e` (recorded as
+the new state), if/elif/else, return, raise Name(...) (message ignored), `while`, `for x in <list or iterator>`, break, continue,
+`l.append(e)`, `x = l.pop()`, `x._prefixlen = e` on an owned local object, and the one try form `try: x = [IPNetwork(]_iter_next(it)[)] ... except StopIteration: raise E`.
+Expressions: int literals, + - * // % & | ^ << >> **, unary -, not/and/or, (chained) comparisons on ints, int(e), bool(e),
+min/max of two ints, tuples, None, list literals, `a + b` on lists, `l[::-1]`, `t[k]` with a literal k on a tuple or on a list
+literal that is never mutated, iter(l), the fixed attribute environment ATTRS, reads of translated properties / calls of
+translated methods of self, of an IPNetwork-valued variable or of a refined operand, calls of translated module-level
+functions, and the constructor calls IPAddress(e, ver) / self.__class__(e, ver) / klass(e, ver) -> (mk_addr ver e),
+IPNetwork((e1, e2), version=ver) -> (mk_net ver e1 e2) (Model/SrcPrelude.v), IPNetwork(x) for an IPNetwork-valued x -> x.
+
+Reading of the new constructs (all of it is trusted translator input, with the tables WHITELIST, FUNCS, FUEL below):
+* Values.  A function parameter declared `net` is an already constructed IPNetwork object (Ip.net); `IPNetwork(x)` on it is the
+  copy constructor with default flags = the identity on the model.  `list net` is a Python list/sequence of such objects.
+  Lists are Coq lists: `l.append(x)` = l ++ [x], `l.pop()` = SrcPrelude.py_pop (IndexError on []), `l[::-1]` = rev l,
+  `a + b` / `a += b` = a ++ b; a list may never be bound to a second name (no aliasing).  Python tuples of non-ints are Coq tuples.
+* `while c: body` -> `Fixpoint <f>_loop<N> (fuel : nat) <variables read> <variables assigned> : outcome <variables read later>`,
+  structural on fuel, `Raise OutOfFuel` at 0; `break` returns the current variables, the end of the body is the recursive
+  call.  The fuel is NOT in the source: it comes from FUEL (a Python int expression evaluated at loop entry + a constant)
+  and must be the hand model's.  `for x in xs: body` -> a structural Fixpoint on the list (pure when the body cannot raise).
+  `return` inside a loop and nested loops are rejected.  Loops are numbered in source order within their function.
+* `if` whose branches fall through and only assign locals is a join: `let/do (x, y) := (if c then .. else ..)`; any other `if`
+  is translated with the rest of the block duplicated into both branches (as before).  A name bound in one branch only is
+  unbound afterwards.
+* `isinstance(other, C)` on a parameter declared `operand` (SrcPrelude.operand: OAddr / ONet / ORng / OOther) splits into the four
+  kinds; inside each arm isinstance tests are decided from the class hierarchy of the parsed module (OAddr = IPAddress,
+  ONet = IPNetwork, ORng = IPRange incl. IPGlob, OOther = no BaseIP) and attribute reads go to the constructor's fields.
+  The final fallback `return <Class>(other) in self` (strings etc.) is OUT OF SCOPE: it becomes `Raise Unsupported` in the OOther arm.
+* `x._prefixlen = e` / `x._value = e` on a LOCAL IPNetwork object is a record update `{| nver := nver x; ... |}` that bypasses
+  the setter.  Accepted only if x is owned: every binding of x is a constructor result (mk_net, or a translated property all
+  of whose results are mk_net calls) and every use of x is `x.<attribute>` (it is never stored, passed, returned or given a
+  second name); checked syntactically over the whole function.  From then on a read of a translated property of x whose
+  translation relied on the class invariant is preceded by the test 0 <= prefixlen <= width -> else `Raise Unsupported`.
+* `2 ** e` with an exponent that depends on a parameter gets the guard `e < 0 -> Raise Unsupported` (Python would build a float).
+Conventions (DESIGN 3): Python ints are Z; a shift count that depends on a parameter gets CPython's `ValueError: negative shift
+count` guard, a count built from object state and literals only is taken as non-negative (class invariant 0 <= prefixlen <=
+width); method parameters are ints unless declared otherwise in WHITELIST; every parameter of a module-level function is declared in FUNCS.
 """
 import ast
 import os
@@ -28,40 +57,74 @@ STRATEGY = (("ipv4", "netaddr/strategy/ipv4.py"), ("ipv6", "netaddr/strategy/ipv
 
 # receiver class -> parameters standing for the object state (version, width, _value[, _prefixlen] / _start, _end values)
 STATE = {"BaseIP": ("ver", "w", "v"), "IPAddress": ("ver", "w", "v"), "IPNetwork": ("ver", "w", "v", "p"),
-         "IPRange": ("ver", "w", "s", "e")}
+         "IPRange": ("ver", "w", "s", "e"), None: ()}
 FIELD = {"self._value": "v", "self._prefixlen": "p"}      # assignable state attributes -> their state parameter
 
+# ---- trusted translator input --------------------------------------------------------------------------------------
 # (receiver class, method, {parameter: type}); the method is looked up through the receiver's bases
 WHITELIST = [(c, m, {}) for c, ms in (
     ("IPNetwork", "_hostmask_int _netmask_int first last size network broadcast netmask hostmask ip cidr key sort_key "
-                  "__iadd__ __isub__ version"),
+                  "__iadd__ __isub__ version prefixlen supernet"),
     ("BaseIP", "is_ipv4_mapped is_ipv4_compat version"),
     ("IPAddress", "key sort_key is_hostmask is_netmask __int__ __index__ __nonzero__ __iadd__ __isub__ __add__ __sub__ "
-                  "__rsub__ __or__ __and__ __xor__ __lshift__ __rshift__ ipv4 version"),
+                  "__rsub__ __or__ __and__ __xor__ __lshift__ __rshift__ ipv4 version netmask_bits"),
     ("IPRange", "first last key size version")) for m in ms.split()] + [
     ("BaseIP", "_set_value", {"value": "sarg"}), ("IPNetwork", "_set_prefixlen", {"value": "sarg"}),
-    ("IPAddress", "ipv6", {"ipv4_compatible": "bool"}), ("IPNetwork", "ipv6", {"ipv4_compatible": "bool"})]
+    ("IPAddress", "ipv6", {"ipv4_compatible": "bool"}), ("IPNetwork", "ipv6", {"ipv4_compatible": "bool"}),
+    ("IPNetwork", "__contains__", {"other": "operand"}), ("IPRange", "__contains__", {"other": "operand"})]
+# module-level functions (receiver None): every parameter is declared
+FUNCS = [(None, "spanning_cidr", {"ip_addrs": "list net"}), (None, "cidr_partition", {"target": "net", "exclude": "net"}),
+         (None, "cidr_exclude", {"target": "net", "exclude": "net"}), (None, "iprange_to_cidrs", {"start": "net", "end": "net"})]
+# output files in dependency order; a definition may use definitions of its own file and of the files before it
+FILES = ("pysrc_gen.v", "pysrc_span_gen.v", "pysrc_partition_gen.v", "pysrc_iprange_gen.v")
+FILE_OF = {"spanning_cidr": "pysrc_span_gen.v", "cidr_partition": "pysrc_partition_gen.v",
+           "cidr_exclude": "pysrc_partition_gen.v", "iprange_to_cidrs": "pysrc_iprange_gen.v"}
+# fuel of every `while` loop: (receiver, function, loop number) -> (Python int expression evaluated at loop entry, constant);
+# the loop runs with fuel `Z.to_nat <expression> + <constant>` -- the hand model's fuel (Model/Ip.v nb_loop, Span.v span_loop,
+# Partition.v part_loop,
+# Subnet.v supernet_loop).  A while loop without an entry is untranslatable.
+FUEL = {("IPAddress", "netmask_bits", 1): ("self._module.width", 2),
+        ("IPNetwork", "supernet", 1): ("self._module.width", 2),
+        (None, "spanning_cidr", 2): ("width", 1),
+        (None, "cidr_partition", 1): ("target_module_width", 1)}
 # documented skip list: (receiver, method) -> reason.  Nothing of the requested whitelist is skipped.
 SKIP = {("IPRange", "sort_key"): "calls core.num_bits (int.bit_length): outside the integer-expression subset",
-        ("IPNetwork", "netmask.setter"): "string/IPAddress argument through the IPAddress() parser and the netmask_bits loop",
+        ("IPNetwork", "netmask.setter"): "string/IPAddress argument through the IPAddress() parser",
         ("IPAddress", "__radd__"): "class-level alias `__radd__ = __add__`, not a function definition (covered by __add__)",
-        ("IPAddress", "__bool__"): "class-level alias `__bool__ = __nonzero__` (covered by __nonzero__)"}
+        ("IPAddress", "__bool__"): "class-level alias `__bool__ = __nonzero__` (covered by __nonzero__)",
+        ("IPListMixin", "__contains__"): "reachable only from user subclasses; IPNetwork and IPRange override it",
+        ("IPNetwork", "__contains__ fallback"): "`return IPNetwork(other) in self` for a non-BaseIP operand (string parser): Raise Unsupported",
+        ("IPRange", "__contains__ fallback"): "`return IPAddress(other) in self` for a non-BaseIP operand (string parser): Raise Unsupported"}
 
 EXN = ("AddrFormatError", "AddrConversionError", "ValueError", "TypeError", "IndexError", "KeyError", "StructError",
        "NotRegisteredError", "AttributeError", "OverflowError")
 RESERVED = set("ver w v p s e in let if then else match with end fun forall exists as return at do fix cofix for using "
                "where Type Prop Set Ok Raise Some None true false fst snd negb omap bind width max_int_w mk_addr mk_net "
-               "SInt Z bool list option outcome net sarg nil cons".split())
+               "SInt Z bool list option outcome net sarg nil cons nver nval nplen rev app map fuel xs nat unit tt O S "
+               "py_pop operand OAddr ONet ORng OOther struct "
+               # constructors / constants of the Coq prelude: a pattern variable of that name would be read as the constructor
+               "left right inl inr pair tt I conj eq_refl xH xO xI Z0 Zpos Zneg Lt Gt Eq ex_intro exist inleft inright "
+               "Build_net AddrFormatError AddrConversionError ValueError TypeError IndexError KeyError StructError "
+               "NotRegisteredError AttributeError OverflowError OutOfFuel Unsupported SAddr SOther".split())
 ARITH = {ast.Add: "(%s + %s)", ast.Sub: "(%s - %s)", ast.Mult: "(%s * %s)", ast.BitAnd: "(Z.land %s %s)",
          ast.BitOr: "(Z.lor %s %s)", ast.BitXor: "(Z.lxor %s %s)", ast.LShift: "(Z.shiftl %s %s)",
          ast.RShift: "(Z.shiftr %s %s)", ast.FloorDiv: "(%s / %s)", ast.Mod: "(%s mod %s)", ast.Pow: "(%s ^ %s)"}
 CMP = {ast.Lt: "(%s <? %s)", ast.LtE: "(%s <=? %s)", ast.Gt: "(%s >? %s)", ast.GtE: "(%s >=? %s)", ast.Eq: "(%s =? %s)",
        ast.NotEq: "(negb (%s =? %s))"}
-COQTY = {"int": "Z", "bool": "bool", "tuple": "(list Z)", "obj": "(Z * Z)", "net": "net", "self": "Z", "sarg": "sarg"}
+COQTY = {"int": "Z", "bool": "bool", "tuple": "(list Z)", "obj": "(Z * Z)", "net": "net", "self": "Z", "sarg": "sarg",
+         "operand": "operand", "unit": "unit"}
+# the kinds of an `operand` (SrcPrelude.operand), their fields and the class each one stands for
+OPERAND = (("OAddr", ("ver", "v")), ("ONet", ("ver", "v", "p")), ("ORng", ("ver", "s", "e")), ("OOther", ()))
+KINDCLASS = {"OAddr": "IPAddress", "ONet": "IPNetwork", "ORng": "IPRange"}
+MUTATORS = ("append", "pop")
 
 
 class Untranslatable(Exception):
     pass
+
+
+class NoJoin(Exception):
+    """an `if` that cannot be written as a join of its assigned locals: translated by duplicating the continuation"""
 
 
 def bad(node, why, fn=IPFILE):
@@ -69,7 +132,7 @@ def bad(node, why, fn=IPFILE):
 
 
 def mangle(recv, name):
-    return "src_%s_%s" % (recv, name.strip("_"))
+    return "src_%s_%s" % (recv, name.strip("_")) if recv else "src_%s" % name
 
 
 def dotted(node):
@@ -86,6 +149,134 @@ def literal(node, text):
     return s if node.value >= 0 else "(%s)" % s
 
 
+def const_int(node):
+    """the value of an integer literal (possibly negated), else None"""
+    if isinstance(node, ast.UnaryOp) and isinstance(node.op, ast.USub):
+        v = const_int(node.operand)
+        return None if v is None else -v
+    if isinstance(node, ast.Constant) and isinstance(node.value, int) and not isinstance(node.value, bool):
+        return node.value
+    return None
+
+
+def in_order(found):
+    """names of (line, column, name) triples in source order, each once"""
+    out = []
+    for _, _, x in sorted(found):
+        if x not in out:
+            out.append(x)
+    return out
+
+
+def assigned_names(stmts):
+    """local names (re)bound or mutated by the statements: assignment / loop targets, l.append, l.pop, _iter_next(it)"""
+    found = []
+    for st in stmts:
+        for n in ast.walk(st):
+            if isinstance(n, ast.Name) and isinstance(n.ctx, ast.Store):
+                found.append((n.lineno, n.col_offset, n.id))
+            elif isinstance(n, ast.Attribute) and isinstance(n.ctx, ast.Store) and isinstance(n.value, ast.Name):
+                found.append((n.lineno, n.col_offset, n.value.id))             # x._prefixlen = e rebinds the local object x
+            elif isinstance(n, ast.Call) and isinstance(n.func, ast.Attribute) and isinstance(n.func.value, ast.Name):
+                found.append((n.lineno, n.col_offset, n.func.value.id))        # any method call on a name may mutate it
+            elif isinstance(n, ast.Call) and dotted(n.func) == "_iter_next" and n.args and isinstance(n.args[0], ast.Name):
+                found.append((n.lineno, n.col_offset, n.args[0].id))
+    return in_order(found)
+
+
+def loaded_names(nodes):
+    return in_order([(n.lineno, n.col_offset, n.id) for st in nodes for n in ast.walk(st)
+                     if isinstance(n, ast.Name) and isinstance(n.ctx, ast.Load)])
+
+
+# ---- types: "int" "bool" "net" "obj" "none" "cls" "sarg" "operand" | ("list", Cell) | ("iter", Cell) | ("tup", types)
+#             | ("seq",) a never-mutated list literal (env only) | ("opnd", kind, {field: name}) a refined operand (env only)
+class Cell:
+    """element type of a list, found by unification (`left = []` learns it from the first append)"""
+
+    def __init__(self, t=None):
+        self.t, self.link = t, None
+
+    def find(self):
+        c = self
+        while c.link is not None:
+            c = c.link
+        return c
+
+
+def is_list(t):
+    return isinstance(t, tuple) and t[0] == "list"
+
+
+def is_value(t):
+    """types whose terms are first-class Coq values that a loop or a join can carry"""
+    return t in ("int", "bool", "net") or (isinstance(t, tuple) and t[0] in ("list", "tup"))
+
+
+def parse_type(s):
+    return ("list", Cell(s[5:])) if s.startswith("list ") else s
+
+
+def show(t):
+    if isinstance(t, str):
+        return t
+    if t[0] in ("list", "iter"):
+        return "%s of %s" % (t[0], show(t[1].find().t or "?"))
+    if t[0] == "tup":
+        return "tuple (%s)" % ", ".join(show(x) for x in t[1])
+    return t[0]
+
+
+def coqty(t, node=None):
+    if isinstance(t, str):
+        return COQTY[t]
+    if t[0] in ("list", "iter"):
+        e = t[1].find().t
+        if e is None:
+            bad(node, "list whose element type is never determined")
+        return "(list %s)" % coqty(e, node)
+    if t[0] == "tup":
+        return "(%s)" % " * ".join(coqty(x, node) for x in t[1])
+    bad(node, "%s where a Coq value is needed" % show(t))
+
+
+def unify(node, a, b, what):
+    if isinstance(a, str) or isinstance(b, str) or a[0] != b[0]:
+        if a != b:
+            bad(node, "%s: %s where %s is expected" % (what, show(a), show(b)))
+    elif a[0] in ("list", "iter"):
+        ca, cb = a[1].find(), b[1].find()
+        if ca is cb:
+            return
+        if ca.t is None:
+            ca.link = cb
+        elif cb.t is None:
+            cb.link = ca
+        else:
+            unify(node, ca.t, cb.t, what)
+    elif a[0] == "tup" and len(a[1]) == len(b[1]):
+        for x, y in zip(a[1], b[1]):
+            unify(node, x, y, what)
+    else:
+        bad(node, "%s: %s where %s is expected" % (what, show(a), show(b)))
+
+
+def tuple_term(terms):
+    return "tt" if not terms else terms[0] if len(terms) == 1 else "(%s)" % ", ".join(terms)
+
+
+def tuple_type(types):
+    return "unit" if not types else types[0] if len(types) == 1 else ("tup", tuple(types))
+
+
+def pattern(names):
+    return "_" if not names else names[0] if len(names) == 1 else "(%s)" % ", ".join(names)    # in a let: '(a, b)
+
+
+def unparen(s):
+    return re.sub(r"^\((.*)\)$", r"\1", s)
+
+
 class Module:
     """One parsed source file: classes, their bases and function definitions."""
 
@@ -96,6 +287,18 @@ class Module:
         self.imports = {(a.asname or a.name): "%s.%s" % (n.module, a.name) for n in self.tree.body
                         if isinstance(n, ast.ImportFrom) for a in n.names}
 
+    @staticmethod
+    def lambda_property(st, name):
+        """class-level `name = property(lambda self: e, ...)` as the getter `def name(self): return e`, else None"""
+        if not (isinstance(st, ast.Assign) and len(st.targets) == 1 and isinstance(st.targets[0], ast.Name) and st.targets[0].id == name
+                and isinstance(st.value, ast.Call) and dotted(st.value.func) == "property" and st.value.args
+                and isinstance(st.value.args[0], ast.Lambda)):
+            return None
+        lam = st.value.args[0]
+        f = ast.FunctionDef(name=name, args=lam.args, body=[ast.copy_location(ast.Return(value=lam.body), lam)], decorator_list=[])
+        ast.copy_location(f, st)
+        return ast.fix_missing_locations(f)
+
     def lookup(self, cls, name):
         """(defining class, FunctionDef, is_property) of attribute `name` of class `cls` (depth-first through the bases)."""
         c = self.classes.get(cls)
@@ -103,13 +306,18 @@ class Module:
             return None
         fs = [f for f in c.body if isinstance(f, ast.FunctionDef) and f.name == name
               and not any(isinstance(d, ast.Attribute) and d.attr in ("setter", "deleter") for d in f.decorator_list)]
+        lam = [(st, self.lambda_property(st, name)) for st in c.body]
+        lam = [(st, f) for st, f in lam if f is not None]
         # any other binding of the name in the class body (alias assignment, definition under if/try, ...) is not understood
         other = [n for st in c.body if st not in fs and not (isinstance(st, ast.FunctionDef) and st.name == name)
+                 and not any(st is l for l, _ in lam)
                  for n in ([st] if isinstance(st, ast.FunctionDef) else ast.walk(st))
                  if (isinstance(n, ast.Name) and n.id == name and isinstance(n.ctx, ast.Store))
                  or (isinstance(n, (ast.FunctionDef, ast.ClassDef)) and n.name == name and n is not st)]
-        if len(fs) > 1 or other:
-            bad((fs[1:] + other)[0], "%s.%s is bound more than once or not by a plain def" % (cls, name))
+        if len(fs) + len(lam) > 1 or other:
+            bad((fs[1:] + [f for _, f in lam] + other)[-1], "%s.%s is bound more than once or not by a plain def" % (cls, name))
+        if lam:
+            return cls, lam[0][1], True
         if fs:
             decs = [dotted(d) for d in fs[0].decorator_list]
             if decs not in ([], ["property"]):
@@ -121,23 +329,76 @@ class Module:
                 return r
         return None
 
+    def function(self, name):
+        """the module-level `def name`, which must be the only top-level binding of that name"""
+        binds = [n for st in self.tree.body
+                 for n in ([st] if isinstance(st, (ast.FunctionDef, ast.ClassDef)) else ast.walk(st))
+                 if (isinstance(n, (ast.FunctionDef, ast.ClassDef)) and n.name == name)
+                 or (isinstance(n, ast.Name) and n.id == name and isinstance(n.ctx, ast.Store))
+                 or (isinstance(n, ast.alias) and (n.asname or n.name) == name)]
+        if len(binds) != 1 or not isinstance(binds[0], ast.FunctionDef) or binds[0].decorator_list:
+            bad(binds[-1] if binds else None, "%s is not bound exactly once, by a plain top-level def" % name)
+        return binds[0]
+
+    def toplevel(self, name):
+        return any((isinstance(n, (ast.FunctionDef, ast.ClassDef)) and n.name == name)
+                   or (isinstance(n, ast.Name) and n.id == name and isinstance(n.ctx, ast.Store))
+                   or (isinstance(n, ast.alias) and (n.asname or n.name) == name)
+                   for st in self.tree.body for n in ([st] if isinstance(st, (ast.FunctionDef, ast.ClassDef)) else ast.walk(st)))
+
+    def ancestors(self, cls):
+        out = [cls]
+        for b in (self.classes[cls].bases if cls in self.classes else []):
+            out += self.ancestors(dotted(b))
+        return out
+
+
+class Loop:
+    """One translated loop: a Fixpoint emitted before the definition of its function."""
+
+    def __init__(self, name, node, iswhile, params, rty, ir, outcome, elem=None, target=None):
+        self.name, self.node, self.iswhile, self.params, self.rty, self.ir, self.outcome = name, node, iswhile, params, rty, ir, outcome
+        self.elem, self.target = elem, target
+
+    def text(self, fn):
+        ps = lambda xs: "".join(" (%s : %s)" % (cn, unparen(coqty(ty, self.node))) for cn, ty in xs)
+        rt = coqty(self.rty, self.node)
+        rt = "outcome " + rt if self.outcome else unparen(rt)
+        where = "%s: %s, loop %s (`%s`), lines %d-%d" % (fn.mod.fn, fn.what(), self.name.rsplit("loop", 1)[1],
+                                                         "while" if self.iswhile else "for", self.node.lineno, self.node.end_lineno)
+        if self.iswhile:
+            return ("(* %s; one iteration per unit of fuel *)\nFixpoint %s (fuel : nat)%s : %s :=\n  match fuel with\n"
+                    "  | O => Raise OutOfFuel\n  | S fuel' =>\n    %s\n  end.\n"
+                    % (where, self.name, ps(self.params), rt, fn.render(self.ir, "    ", self.outcome)))
+        inv, car = self.params
+        return ("(* %s; structural on the remaining elements *)\nFixpoint %s%s (xs : list %s)%s : %s :=\n  match xs with\n"
+                "  | [] =>\n    %s\n  | %s :: xs' =>\n    %s\n  end.\n"
+                % (where, self.name, ps(inv), unparen(coqty(self.elem, self.node)), ps(car), rt,
+                   fn.render(self.ir[0], "    ", self.outcome), self.target, fn.render(self.ir[1], "    ", self.outcome)))
+
 
 class Fn:
-    """Translation of one method for one receiver class."""
+    """Translation of one method for one receiver class, or of one module-level function (recv None)."""
 
     def __init__(self, tr, recv, name, ptypes):
         self.tr, self.recv, self.name, self.mod = tr, recv, name, tr.mod
-        r = self.mod.lookup(recv, name)
-        if r is None:
-            bad(None, "%s.%s not found" % (recv, name))
-        self.owner, self.f, self.is_prop = r
+        self.file = FILE_OF.get(name, FILES[0]) if recv is None else FILES[0]
+        if recv is None:
+            self.owner, self.f, self.is_prop = None, self.mod.function(name), False
+        else:
+            r = self.mod.lookup(recv, name)
+            if r is None:
+                bad(None, "%s.%s not found" % (recv, name))
+            self.owner, self.f, self.is_prop = r
         a = self.f.args
-        if a.vararg or a.kwarg or a.kwonlyargs or a.posonlyargs or not a.args or a.args[0].arg != "self":
+        if a.vararg or a.kwarg or a.kwonlyargs or a.posonlyargs or (recv is not None and (not a.args or a.args[0].arg != "self")):
             bad(self.f, "unsupported signature")
         if any(not isinstance(d, ast.Constant) for d in a.defaults):
             bad(self.f, "non-constant default argument")
-        self.attrs = {"self._module.version": ("int", "ver"),
-                      "self._module.width": ("int", "w"), "self._module.max_int": ("int", "(max_int_w w)")}
+        self.attrs = {}
+        if recv is not None:
+            self.attrs = {"self._module.version": ("int", "ver"),
+                          "self._module.width": ("int", "w"), "self._module.max_int": ("int", "(max_int_w w)")}
         for m, _ in STRATEGY:
             if self.mod.imports.get("_" + m) == "netaddr.strategy." + m:
                 for c in ("width", "version", "max_int"):
@@ -145,30 +406,37 @@ class Fn:
         if recv == "IPRange":
             self.attrs.update({"self._start": ("obj", ("ver", "w", "s", "(ver, s)")), "self._end": ("obj", ("ver", "w", "e", "(ver, e)")),
                                "self._start._value": ("int", "s"), "self._end._value": ("int", "e")})
-        else:
+        elif recv is not None:
             self.attrs["self._value"] = ("int", "v")
         if recv == "IPNetwork":
             self.attrs["self._prefixlen"] = ("int", "p")
         self.used, self.pre, self.nohoist, self.nfresh, self.size = {}, [], 0, 0, 0
-        env = {"@taint": frozenset(), "@mut": None}
+        self.deps, self.loops, self.loopmemo = set(), [], {}
+        self.assumes_inv = False        # some shift count built from object state only was taken as non-negative (class invariant)
+        self.freshbind = set()          # assignments `x = <constructor result>`: x holds an object nobody else can see
+        loops = sorted((n for n in ast.walk(self.f) if isinstance(n, (ast.For, ast.While))), key=lambda n: (n.lineno, n.col_offset))
+        self.loopno = {id(n): i + 1 for i, n in enumerate(loops)}
+        env = {"@taint": frozenset(), "@mut": None, "@break": None, "@continue": None, "@raw": frozenset()}
         self.params = []
-        for x in a.args[1:]:
-            ty = ptypes.get(x.arg, "int")
+        for x in a.args[(0 if recv is None else 1):]:
+            if recv is None and x.arg not in ptypes:
+                bad(x, "parameter %s of %s has no declared type in FUNCS" % (x.arg, name))
+            ty = parse_type(ptypes.get(x.arg, "int"))
             cn = self.coqname(x, x.arg)
             env[x.arg] = (ty, cn)
             env["@taint"] |= {x.arg}
-            self.params.append((cn, COQTY[ty]))
+            self.params.append((cn, ty))
         body = self.f.body
         if body and isinstance(body[0], ast.Expr) and isinstance(body[0].value, ast.Constant) and isinstance(body[0].value.value, str):
             body = body[1:]
-        self.ir = self.block(body, env)
+        self.ir = self.block(body, env, lambda e: self.leaf(e, "none", None), [])
         self.finish()
 
     # ---- names
     def coqname(self, node, name):
         cn = name + "_" if (name in RESERVED or re.fullmatch(r"h\d+", name) or name.startswith("src_")) else name
-        if not re.fullmatch(r"[A-Za-z_][A-Za-z0-9_]*", cn):
-            bad(node, "non-ASCII identifier")
+        if not re.fullmatch(r"[A-Za-z_][A-Za-z0-9_]*", cn) or cn == "_":
+            bad(node, "identifier %r" % name)
         if self.used.setdefault(cn, name) != name:
             bad(node, "identifier clash on %s" % cn)
         return cn
@@ -205,14 +473,27 @@ class Fn:
     def tainted(self, node, env):
         return any(isinstance(n, ast.Name) and n.id in env["@taint"] for n in ast.walk(node))
 
+    def snapshot(self):
+        return dict(self.used), self.nfresh, self.size, list(self.pre), self.nohoist, list(self.loops), dict(self.loopmemo)
+
+    def restore(self, snap):
+        self.used, self.nfresh, self.size, self.pre, self.nohoist, self.loops, self.loopmemo = snap
+
     # ---- calls of other translated definitions and constructors
     def generated(self, node, recv, name, state, args):
+        """use of translated definition (recv, name) on receiver state `state` with arguments [(type, term)]"""
         d = self.tr.get(recv, name, node)
-        if len(args) != len(d.params) or any(t != COQTY["int"] for _, t in d.params):
-            bad(node, "unsupported argument list for %s.%s" % (recv, name))
-        term = "(%s)" % " ".join([mangle(recv, name), state] + args)
+        if FILES.index(d.file) > FILES.index(self.file):
+            bad(node, "%s lives in %s, which comes after %s" % (mangle(recv, name), d.file, self.file))
+        self.deps.add((recv, name))
+        self.assumes_inv |= d.assumes_inv
+        if len(args) != len(d.params):
+            bad(node, "unsupported argument list for %s" % mangle(recv, name))
+        for (ty, _), (_, pty) in zip(args, d.params):
+            unify(node, ty, pty, "argument of %s" % mangle(recv, name))
+        term = "(%s)" % " ".join([mangle(recv, name)] + ([state] if state else []) + [t for _, t in args])
         if d.optional:
-            bad(node, "use of %s.%s, which may return None" % (recv, name))
+            bad(node, "use of %s, which may return None" % mangle(recv, name))
         return ("out", d.kind, term) if d.outcome else (d.kind, term)
 
     def ctor(self, node, cls, env):
@@ -225,23 +506,73 @@ class Fn:
                 bad(node, "IPAddress constructor form other than (int, version)")
             val, ver = self.int_(args[0], env), self.int_(args[1], env)
             return ("out", "obj", "(mk_addr %s %s)" % (ver, val))
+        if cls == "IPNetwork" and not kw and len(node.args) == 1 and not isinstance(node.args[0], ast.Tuple):
+            ty, t = self.ex(node.args[0], env)          # copy constructor, default flags: the identity on the model
+            if ty != "net":
+                bad(node, "IPNetwork(x) of %s (only an IPNetwork-valued x is the identity)" % show(ty))
+            return ("net", t)
         if cls == "IPNetwork":
             if set(kw) != {"version"} or len(node.args) != 1 or not isinstance(node.args[0], ast.Tuple) or len(node.args[0].elts) != 2:
-                bad(node, "IPNetwork constructor form other than ((int, int), version=...)")
+                bad(node, "IPNetwork constructor form other than ((int, int), version=...) or (network)")
             a, b = [self.int_(x, env) for x in node.args[0].elts]
             return ("out", "net", "(mk_net %s %s %s)" % (self.int_(kw["version"], env), a, b))
         bad(node, "constructor of %s" % cls)
 
+    def objattr(self, node, head, tail, env):
+        """attribute path `tail` of the IPNetwork-valued variable or refined operand `head`"""
+        ty, t = env[head]
+        if ty == "net":
+            cls, ver, fields = "IPNetwork", "(nver %s)" % t, {"_value": "(nval %s)" % t, "_prefixlen": "(nplen %s)" % t}
+            state = "%s (width %s) (nval %s) (nplen %s)" % (ver, ver, t, t)
+        else:
+            kind, f = ty[1], ty[2]
+            if kind not in KINDCLASS:
+                bad(node, "attribute of an operand that is no BaseIP object")
+            cls, ver = KINDCLASS[kind], f["ver"]
+            fields = {"OAddr": {"_value": "v"}, "ONet": {"_value": "v", "_prefixlen": "p"},
+                      "ORng": {"_start._value": "s", "_end._value": "e"}}[kind]
+            fields = {k: f[x] for k, x in fields.items()}
+            state = " ".join([ver, "(width %s)" % ver] + [f[x] for x in dict(OPERAND)[kind][1:]])
+        if tail in ("_module.version", "_module.width", "_module.max_int"):
+            return ("int", {"version": ver, "width": "(width %s)" % ver, "max_int": "(max_int_w (width %s))" % ver}[tail[8:]])
+        if tail in fields:
+            return ("int", fields[tail])
+        r = self.mod.lookup(cls, tail) if "." not in tail else None
+        if r and r[2]:
+            if head in env["@raw"] and self.tr.get(cls, tail, node).assumes_inv:
+                # the object's _prefixlen was assigned directly (no setter): the invariant the callee's translation relies on
+                # is tested here; where it fails Python raises from inside the property, which is not translated
+                self.hoist(node, ("guard", "(negb ((0 <=? (nplen %s)) && ((nplen %s) <=? (width (nver %s)))))" % (t, t, t), "Unsupported"))
+            return self.generated(node, cls, tail, state, [])
+        bad(node, "attribute %s of %s %s" % (tail, "an" if cls[0] == "I" else "a", cls))
+
+    def callfn(self, node, name, env):
+        if node.keywords:
+            bad(node, "keyword arguments in a call of %s" % name)
+        return self.generated(node, None, name, "", [self.ex(x, env) for x in node.args])
+
+    def isinst(self, node, kind, cls):
+        """isinstance(<operand of this kind>, cls), decided from the class hierarchy of the parsed module"""
+        if cls not in self.mod.classes or any(c not in self.mod.classes for c in KINDCLASS.values()):
+            bad(node, "isinstance against %s, which is not a class of this module" % cls)
+        if kind == "OOther":
+            return False
+        if cls in self.mod.ancestors(KINDCLASS[kind]):
+            return True
+        if KINDCLASS[kind] in self.mod.ancestors(cls):
+            bad(node, "isinstance against %s, a subclass of %s: not decided by the operand kind" % (cls, KINDCLASS[kind]))
+        return False
+
     def int_(self, node, env):
         ty, t = self.ex(node, env)
         if ty != "int":
-            bad(node, "int expression expected, got %s" % ty)
+            bad(node, "int expression expected, got %s" % show(ty))
         return t
 
     def bool_(self, node, env):
         ty, t = self.ex(node, env)
         if ty != "bool":
-            bad(node, "bool expression expected, got %s" % ty)
+            bad(node, "bool expression expected, got %s" % show(ty))
         return t
 
     # ---- expressions: -> (type, term); rhs() may also return ("out", kind, term) for a call that can raise
@@ -249,8 +580,8 @@ class Fn:
         r = self.rhs(node, env)
         if r[0] != "out":
             return r
-        if r[1] not in ("obj", "int", "bool"):
-            bad(node, "%s result used inside an expression" % r[1])
+        if r[1] != "obj" and not is_value(r[1]):
+            bad(node, "%s result used inside an expression" % show(r[1]))
         h = self.fresh()
         self.hoist(node, ("bind", h, r[2]))
         return ("obj", self.objvar(h)) if r[1] == "obj" else (r[1], h)
@@ -274,16 +605,19 @@ class Fn:
                 return env[node.id]
             if node.id in ("IPAddress", "IPNetwork") and node.id in self.mod.classes:
                 return ("cls", node.id)
-            bad(node, "unknown name %s" % node.id)
+            bad(node, "unknown (or possibly unbound) name %s" % node.id)
         if isinstance(node, ast.Attribute):
             path = dotted(node)
             if path in env:
                 return env[path]
             if path in self.attrs:
                 return self.attrs[path]
-            if path == "self.__class__":
+            if path == "self.__class__" and self.recv:
                 return ("cls", self.recv)
-            if path and path.startswith("self.") and path.count(".") == 1:
+            head, _, tail = (path or "").partition(".")
+            if head in env and (env[head][0] == "net" or env[head][0][0] == "opnd"):
+                return self.objattr(node, head, tail, env)
+            if self.recv and path and path.startswith("self.") and path.count(".") == 1:
                 r = self.mod.lookup(self.recv, node.attr)
                 if r and r[2]:
                     return self.generated(node, self.recv, node.attr, self.state(env), [])
@@ -297,12 +631,19 @@ class Fn:
         if isinstance(node, ast.BinOp):
             if type(node.op) not in ARITH:
                 bad(node, "operator %s" % type(node.op).__name__)
-            a, b = self.int_(node.left, env), self.int_(node.right, env)
+            (ta, a), (tb, b) = self.ex(node.left, env), self.ex(node.right, env)
+            if isinstance(node.op, ast.Add) and is_list(ta) and is_list(tb):
+                unify(node, ta, tb, "list concatenation")
+                return (("list", ta[1]), "(%s ++ %s)" % (a, b))
+            if ta != "int" or tb != "int":
+                bad(node, "int expression expected, got %s" % show(tb if ta == "int" else ta))
             nonneg_lit = isinstance(node.right, ast.Constant) and isinstance(node.right.value, int) and node.right.value >= 0
             if isinstance(node.op, (ast.LShift, ast.RShift)) and not nonneg_lit and self.tainted(node.right, env):
                 self.hoist(node, ("guard", "(%s <? 0)" % b, "ValueError"))      # CPython: negative shift count
+            elif isinstance(node.op, (ast.LShift, ast.RShift, ast.Pow)) and not nonneg_lit:
+                self.assumes_inv = True                                         # class invariant 0 <= prefixlen <= width
             if isinstance(node.op, ast.Pow) and not nonneg_lit and self.tainted(node.right, env):
-                bad(node, "** with an exponent that depends on a parameter (float for a negative exponent)")
+                self.hoist(node, ("guard", "(%s <? 0)" % b, "Unsupported"))     # a float for a negative exponent: outside the model
             if isinstance(node.op, (ast.FloorDiv, ast.Mod)) and not (isinstance(node.right, ast.Constant) and node.right.value != 0):
                 bad(node, "// or % by a non-literal (ZeroDivisionError not modelled)")
             return ("int", ARITH[type(node.op)] % (a, b))
@@ -327,111 +668,104 @@ class Fn:
             (ta, a), (tb, b) = self.ex(node.body, env), self.ex(node.orelse, env)
             self.nohoist -= 1
             if ta != tb or ta not in ("int", "bool"):
-                bad(node, "conditional expression of types %s/%s" % (ta, tb))
+                bad(node, "conditional expression of types %s/%s" % (show(ta), show(tb)))
             return (ta, "(if %s then %s else %s)" % (c, a, b))
+        if isinstance(node, ast.List):
+            cell, terms = Cell(), []
+            for x in node.elts:
+                ty, t = self.ex(x, env)
+                if not is_value(ty):
+                    bad(x, "list element of kind %s" % show(ty))
+                unify(x, ("list", Cell(ty)), ("list", cell), "list element")
+                terms.append(t)
+            return (("list", cell), "[%s]" % "; ".join(terms))
+        if isinstance(node, ast.Subscript):
+            return self.subscript(node, env)
         if isinstance(node, ast.Call):
-            f = node.func
-            if isinstance(f, ast.Name) and f.id in ("int", "bool") and f.id not in env:
-                if len(node.args) != 1 or node.keywords:
-                    bad(node, "%s() with other than one argument" % f.id)
-                ty, t = self.ex(node.args[0], env)
-                if f.id == "int" and ty == "int":
-                    return ("int", t)
-                if f.id == "int" and ty == "obj":                       # int(IPAddress object) = its __int__()
-                    return self.generated(node, "IPAddress", "__int__", " ".join(t[:3]), [])
-                if f.id == "bool" and ty in ("int", "bool"):
-                    return ("bool", "(negb (%s =? 0))" % t if ty == "int" else t)
-                bad(node, "%s() of %s" % (f.id, ty))
-            if isinstance(f, ast.Attribute) and dotted(f) == "self." + f.attr and f.attr != "__class__":
-                r = self.mod.lookup(self.recv, f.attr)
-                if not r or r[2] or node.keywords:
-                    bad(node, "call of self.%s" % f.attr)
-                return self.generated(node, self.recv, f.attr, self.state(env), [self.int_(x, env) for x in node.args])
-            ty, cls = self.ex(f, env) if not isinstance(f, ast.Call) else (None, None)
-            if ty != "cls":
-                bad(node, "call of %s" % (dotted(f) or "a computed function"))
-            return self.ctor(node, cls, env)
+            return self.call(node, env)
         bad(node, "expression %s" % type(node).__name__)
 
-    # ---- statements -> IR: let/bind/if/match/ret/raise
+    def subscript(self, node, env):
+        ty, t = self.ex(node.value, env)
+        sl = node.slice
+        if isinstance(sl, ast.Slice):
+            if sl.lower is None and sl.upper is None and const_int(sl.step) == -1 and is_list(ty):
+                return (("list", ty[1]), "(rev %s)" % t)
+            bad(node, "slice other than l[::-1] on a list")
+        i = const_int(sl)
+        if i is None:
+            bad(node, "subscript with a non-literal index")
+        n = len(t) if ty == ("seq",) else len(ty[1]) if isinstance(ty, tuple) and ty[0] == "tup" else None
+        if n is None:
+            bad(node, "subscript of %s (IndexError not modelled)" % show(ty))
+        if not -n <= i < n:
+            bad(node, "index %d out of range" % i)
+        i %= n
+        if ty == ("seq",):
+            return t[i]
+        return (ty[1][i], "(snd %s)" % ("(fst " * (n - 1 - i) + t + ")" * (n - 1 - i)) if i else "(fst " * (n - 1) + t + ")" * (n - 1))
+
+    def call(self, node, env):
+        f = node.func
+        if isinstance(f, ast.Name) and f.id not in env and not self.mod.toplevel(f.id) and f.id in ("int", "bool", "min", "max", "iter"):
+            if node.keywords or len(node.args) != (2 if f.id in ("min", "max") else 1):
+                bad(node, "%s() with an unsupported argument list" % f.id)
+            if f.id in ("min", "max"):
+                return ("int", "(Z.%s %s %s)" % (f.id, self.int_(node.args[0], env), self.int_(node.args[1], env)))
+            ty, t = self.ex(node.args[0], env)
+            if f.id == "iter" and is_list(ty):
+                return (("iter", ty[1]), t)
+            if f.id == "int" and ty == "int":
+                return ("int", t)
+            if f.id == "int" and ty == "obj":                       # int(IPAddress object) = its __int__()
+                return self.generated(node, "IPAddress", "__int__", " ".join(t[:3]), [])
+            if f.id == "bool" and ty in ("int", "bool"):
+                return ("bool", "(negb (%s =? 0))" % t if ty == "int" else t)
+            bad(node, "%s() of %s" % (f.id, show(ty)))
+        if isinstance(f, ast.Name) and f.id not in env and any(k[1] == f.id for k in FUNCS):
+            return self.callfn(node, f.id, env)
+        if self.recv and isinstance(f, ast.Attribute) and dotted(f) == "self." + f.attr and f.attr != "__class__":
+            r = self.mod.lookup(self.recv, f.attr)
+            if not r or r[2] or node.keywords:
+                bad(node, "call of self.%s" % f.attr)
+            return self.generated(node, self.recv, f.attr, self.state(env), [("int", self.int_(x, env)) for x in node.args])
+        ty, cls = self.ex(f, env) if not isinstance(f, ast.Call) else (None, None)
+        if ty != "cls":
+            bad(node, "call of %s" % (dotted(f) or "a computed function"))
+        return self.ctor(node, cls, env)
+
+    # ---- statements -> IR: let/bind/if/match/join/next/omatch/ret/raise/jret
     def leaf(self, env, kind, term, wrapped=False):
         if kind == "none" and env["@mut"]:
             kind, term = "self", env["@mut"][1]
         return ("ret", kind, term, wrapped)
 
-    def block(self, stmts, env):
+    def block(self, stmts, env, k, after):
+        """IR of the statements; k(env) is what happens when they fall off the end, `after` the statements that may still
+        run then (only used to decide which loop variables are read later)"""
         if not stmts:
-            return self.leaf(env, "none", None)
+            return k(env)
         s, rest = stmts[0], list(stmts[1:])
+        go = lambda e: self.block(rest, e, k, after)
         if isinstance(s, ast.Pass):
-            return self.block(rest, env)
+            return go(env)
         if isinstance(s, (ast.Assign, ast.AugAssign)):
-            tgts = s.targets if isinstance(s, ast.Assign) else [s.target]
-            if len(tgts) != 1:
-                bad(s, "multiple assignment")
-            value = s.value if isinstance(s, ast.Assign) else ast.copy_location(ast.BinOp(tgts[0], s.op, s.value), s)
-            r = self.rhs(value, env)
-            pre, env = self.take_pre(), dict(env)
-            path = dotted(tgts[0])
-            if isinstance(tgts[0], ast.Name):
-                if tgts[0].id in ("self", "_ipv4", "_ipv6"):
-                    bad(s, "rebinding of %s" % tgts[0].id)
-                x, cn = tgts[0].id, self.coqname(tgts[0], tgts[0].id)
-                env["@taint"] = env["@taint"] | {x} if self.tainted(value, env) else env["@taint"] - {x}
-                if r[0] == "out" and r[1] in ("obj", "net", "int", "bool"):
-                    env[x] = ("obj", self.objvar(cn)) if r[1] == "obj" else (r[1], cn)
-                    return self.wrap(pre, ("bind", cn, r[2], self.block(rest, env)))
-                if r[0] in ("int", "bool"):
-                    env[x] = (r[0], cn)
-                    return self.wrap(pre, ("let", cn, r[1], self.block(rest, env)))
-                if r[0] in ("none", "cls"):
-                    env[x] = r
-                    return self.wrap(pre, self.block(rest, env))
-                bad(s, "assignment of a %s value" % (r[1] if r[0] == "out" else r[0]))
-            if path in FIELD and path in self.attrs and r[0] == "int":
-                if env["@mut"] and env["@mut"][0] != path:
-                    bad(s, "assignment to a second attribute of self")
-                env["@mut"], env[path] = (path, r[1]), ("int", r[1])
-                return self.wrap(pre, self.block(rest, env))
-            bad(s, "assignment target")
+            return self.assign(s, env, go)
+        if isinstance(s, ast.Expr):
+            return self.expr_stmt(s, env, go)
         if isinstance(s, ast.If):
-            t, neg = s.test, False
-            if isinstance(t, ast.UnaryOp) and isinstance(t.op, ast.Not):
-                t, neg = t.operand, True
-            if isinstance(t, ast.Call) and dotted(t.func) == "isinstance":
-                if (len(t.args) != 2 or t.keywords or not isinstance(t.args[0], ast.Name) or dotted(t.args[1]) != "_int_type"
-                        or env.get(t.args[0].id, ("",))[0] != "sarg" or self.mod.imports.get("_int_type") != "netaddr.compat._int_type"):
-                    bad(s, "isinstance test other than isinstance(<sarg parameter>, _int_type)")
-                x = t.args[0].id
-                ienv = dict(env)
-                ienv[x] = ("int", env[x][1])
-                yes, no = (s.orelse, s.body) if neg else (s.body, s.orelse)
-                return ("match", env[x][1], self.block(yes + rest, ienv), self.block(no + rest, env))
-            c = self.bool_(s.test, env)
-            pre = self.take_pre()
-            return self.wrap(pre, ("if", c, self.block(s.body + rest, env), self.block(s.orelse + rest, env)))
+            return self.if_(s, rest, env, k, after)
+        if isinstance(s, (ast.While, ast.For)):
+            return self.loop(s, rest, env, k, after)
+        if isinstance(s, ast.Try):
+            return self.try_next(s, env, go)
+        if isinstance(s, (ast.Break, ast.Continue)):
+            h = env["@break" if isinstance(s, ast.Break) else "@continue"]
+            if h is None:
+                bad(s, "break/continue outside a loop")
+            return h(env)
         if isinstance(s, ast.Return):
-            if s.value is None:
-                return self.leaf(env, "none", None)
-            if isinstance(s.value, ast.Name) and s.value.id == "self" and "self" not in env:
-                if not env["@mut"]:
-                    bad(s, "return self without a state assignment")
-                return self.leaf(env, "self", env["@mut"][1])
-            if isinstance(s.value, ast.Tuple):
-                ir = self.leaf(env, "tuple", "[%s]" % "; ".join(self.int_(x, env) for x in s.value.elts))
-                return self.wrap(self.take_pre(), ir)
-            r = self.rhs(s.value, env)
-            if env["@mut"] and r[0] != "none":
-                bad(s, "value returned after a state assignment")
-            if r[0] == "out":
-                ir = self.leaf(env, r[1], r[2], True)
-            elif r[0] == "obj":
-                ir = self.leaf(env, "obj", r[1][3])
-            elif r[0] in ("int", "bool", "none", "net"):
-                ir = self.leaf(env, r[0], r[1])
-            else:
-                bad(s, "return of a %s value" % r[0])
-            return self.wrap(self.take_pre(), ir)
+            return self.return_(s, env)
         if isinstance(s, ast.Raise):
             e = s.exc.func if isinstance(s.exc, ast.Call) else s.exc
             if s.cause or not isinstance(e, ast.Name) or e.id not in EXN:
@@ -441,59 +775,471 @@ class Fn:
             return ("raise", e.id)
         bad(s, "statement %s" % type(s).__name__)
 
-    # ---- result type and text
-    def leaves(self, ir):
-        if ir[0] in ("ret", "raise"):
-            return [ir]
-        return [x for sub in ir[2:] if isinstance(sub, tuple) for x in self.leaves(sub)]
+    def return_(self, s, env):
+        if env["@break"] is not None:
+            bad(s, "return inside a loop")
+        v = s.value
+        if v is None:
+            return self.leaf(env, "none", None)
+        if isinstance(v, ast.Name) and v.id == "self" and "self" not in env:
+            if not env["@mut"]:
+                bad(s, "return self without a state assignment")
+            return self.leaf(env, "self", env["@mut"][1])
+        if (isinstance(v, ast.Compare) and len(v.ops) == 1 and isinstance(v.ops[0], ast.In) and dotted(v.comparators[0]) == "self"
+                and isinstance(v.left, ast.Call) and len(v.left.args) == 1 and isinstance(v.left.args[0], ast.Name)
+                and env.get(v.left.args[0].id, ("",))[0][:2] == ("opnd", "OOther")):
+            return ("raise", "Unsupported")     # `return IPNetwork(other) in self`: the string fallback, out of scope (see SKIP)
+        if isinstance(v, ast.Tuple):
+            items = [self.ex(x, env) for x in v.elts]
+            if self.recv is not None and all(ty == "int" for ty, _ in items):
+                ir = self.leaf(env, "tuple", "[%s]" % "; ".join(t for _, t in items))
+            else:
+                if any(not is_value(ty) for ty, _ in items):
+                    bad(s, "tuple component of kind %s" % [show(ty) for ty, _ in items if not is_value(ty)][0])
+                ir = self.leaf(env, ("tup", tuple(ty for ty, _ in items)), tuple_term([t for _, t in items]))
+            return self.wrap(self.take_pre(), ir)
+        r = self.rhs(v, env)
+        if env["@mut"] and r[0] != "none":
+            bad(s, "value returned after a state assignment")
+        if r[0] == "out":
+            ir = self.leaf(env, r[1], r[2], True)
+        elif r[0] == "obj":
+            ir = self.leaf(env, "obj", r[1][3])
+        elif r[0] in ("int", "bool", "none") or is_value(r[0]):
+            ir = self.leaf(env, r[0], r[1])
+        else:
+            bad(s, "return of a %s value" % show(r[0]))
+        return self.wrap(self.take_pre(), ir)
 
-    def has(self, ir, tag):
-        return ir[0] == tag or any(isinstance(sub, tuple) and self.has(sub, tag) for sub in ir[2:])
+    def static_seq(self, name):
+        """is `name` bound once, to a list literal, and only ever read as name[<literal index>]?"""
+        ok = {id(n.value) for n in ast.walk(self.f) if isinstance(n, ast.Subscript) and isinstance(n.ctx, ast.Load)
+              and const_int(n.slice) is not None}
+        uses = [n for n in ast.walk(self.f) if isinstance(n, ast.Name) and n.id == name]
+        return sum(isinstance(n.ctx, ast.Store) for n in uses) == 1 and all(
+            isinstance(n.ctx, ast.Store) or id(n) in ok for n in uses) and name not in [a.arg for a in self.f.args.args]
+
+    def owned(self, x):
+        """does local x only ever hold objects this function made itself (every binding already translated as a constructor
+        result) and never escape (every read is x.<attribute>)?  Only then is `x._prefixlen = e` a plain update of x."""
+        bases = {id(n.value) for n in ast.walk(self.f) if isinstance(n, ast.Attribute)}
+        binds = [st for st in ast.walk(self.f) if isinstance(st, (ast.Assign, ast.AugAssign, ast.For, ast.With, ast.NamedExpr))
+                 and any(isinstance(n, ast.Name) and n.id == x and isinstance(n.ctx, ast.Store) and id(n) not in bases for n in ast.walk(st))]
+        return (all(id(st) in self.freshbind for st in binds) and x not in [a.arg for a in self.f.args.args]
+                and all(id(n) in bases for n in ast.walk(self.f) if isinstance(n, ast.Name) and n.id == x and isinstance(n.ctx, ast.Load)))
+
+    def no_iterator_over(self, node, cn, env):
+        """an iterator is translated as the (Coq name of the) list it runs over: that name must not be rebound while it lives"""
+        for key, val in env.items():
+            if not key.startswith("@") and isinstance(val[0], tuple) and val[0][0] == "iter" and re.search(r"\b%s\b" % re.escape(cn), val[1]):
+                bad(node, "%s is rebound or mutated while the iterator %s over it is live" % (cn, key))
+
+    def bind_local(self, node, x, ty, env, value_node=None):
+        """env after binding local x (a value of type ty) to its own Coq name"""
+        if x in ("self", "_ipv4", "_ipv6"):
+            bad(node, "rebinding of %s" % x)
+        cn, env = self.coqname(node, x), dict(env)
+        self.no_iterator_over(node, cn, env)
+        env[x] = (ty, cn)
+        if value_node is not None:
+            env["@taint"] = env["@taint"] | {x} if self.tainted(value_node, env) else env["@taint"] - {x}
+        return cn, env
+
+    def assign(self, s, env, go):
+        tgts = s.targets if isinstance(s, ast.Assign) else [s.target]
+        if len(tgts) != 1:
+            bad(s, "multiple assignment")
+        tgt = tgts[0]
+        value = s.value if isinstance(s, ast.Assign) else ast.copy_location(ast.BinOp(tgt, s.op, s.value), s)
+        if isinstance(tgt, ast.Tuple):                                   # a, b, c = e
+            r = self.rhs(value, env)
+            pre = self.take_pre()
+            ty = r[1] if r[0] == "out" else r[0]
+            if not (isinstance(ty, tuple) and ty[0] == "tup" and len(ty[1]) == len(tgt.elts) and all(isinstance(x, ast.Name) for x in tgt.elts)):
+                bad(s, "unpacking of %s" % show(ty))
+            names = []
+            for x, xty in zip(tgt.elts, ty[1]):
+                if x.id == "_":
+                    names.append("_")
+                    env = dict(env)
+                    env.pop("_", None)
+                else:
+                    cn, env = self.bind_local(x, x.id, xty, env, value)
+                    names.append(cn)
+            return self.wrap(pre, ("bind" if r[0] == "out" else "let", pattern(names), r[2] if r[0] == "out" else r[1], go(env)))
+        if (isinstance(tgt, ast.Name) and isinstance(value, ast.Call) and isinstance(value.func, ast.Attribute) and value.func.attr == "pop"
+                and isinstance(value.func.value, ast.Name) and is_list(env.get(value.func.value.id, ("",))[0])):
+            l = value.func.value.id                                      # x = l.pop()
+            if value.args or value.keywords or isinstance(s, ast.AugAssign) or l == tgt.id:
+                bad(s, "pop() with arguments")
+            lty, lt = env[l]
+            elem = lty[1].find().t
+            if elem is None:
+                bad(s, "pop() from a list whose element type is not known yet")
+            lcn, env = self.bind_local(s, l, lty, env)
+            cn, env = self.bind_local(tgt, tgt.id, elem, env, value)
+            return ("bind", pattern([lcn, cn]), "(py_pop %s)" % lt, go(env))
+        if isinstance(tgt, ast.Name) and isinstance(s, ast.Assign) and isinstance(value, ast.List) and value.elts and self.static_seq(tgt.id):
+            items = [self.ex(x, env) for x in value.elts]                # a list literal that is only ever indexed by literals
+            pre, env = self.take_pre(), dict(env)
+            if any(ty not in ("int", "bool", "net") for ty, _ in items):
+                bad(s, "list literal element of kind %s" % [show(ty) for ty, _ in items if ty not in ("int", "bool", "net")][0])
+            names = [self.coqname(tgt, "%s_%d" % (tgt.id, i)) for i in range(len(items))]
+            env[tgt.id] = (("seq",), [(ty, cn) for (ty, _), cn in zip(items, names)])
+            ir = go(env)
+            for (ty, t), cn in reversed(list(zip(items, names))):
+                ir = ("let", cn, t, ir)
+            return self.wrap(pre, ir)
+        if (isinstance(tgt, ast.Attribute) and isinstance(tgt.value, ast.Name) and env.get(tgt.value.id, ("",))[0] == "net"
+                and tgt.attr in ("_value", "_prefixlen")):
+            x, old = tgt.value.id, env[tgt.value.id][1]              # x._prefixlen = e on a local object: a new record value for x
+            if not self.owned(x):
+                bad(s, "attribute assignment on %s, which may be visible under another name" % x)
+            e = self.int_(value, env)
+            pre = self.take_pre()
+            cn, env = self.bind_local(s, x, "net", env, value)
+            env["@raw"] = env["@raw"] | {x}
+            term = "{| nver := nver %s; nval := %s; nplen := %s |}" % (
+                old, e if tgt.attr == "_value" else "nval " + old, e if tgt.attr == "_prefixlen" else "nplen " + old)
+            return self.wrap(pre, ("let", cn, term, go(env)))
+        r = self.rhs(value, env)
+        pre, env = self.take_pre(), dict(env)
+        path = dotted(tgt)
+        if isinstance(tgt, ast.Name):
+            x = tgt.id
+            ty = r[1] if r[0] == "out" else r[0]
+            if r[0] == "out" and r[1] == "net" and isinstance(s, ast.Assign) and (
+                    r[2].startswith("(mk_net ") or any(self.tr.done[k].fresh and r[2].startswith("(%s " % mangle(*k)) for k in self.deps)):
+                self.freshbind.add(id(s))
+            if is_list(ty) and isinstance(value, ast.Name):
+                bad(s, "a second name for a list (aliasing)")
+            if r[0] == "out" and (r[1] == "obj" or is_value(r[1])):
+                cn, env = self.bind_local(tgt, x, r[1], env, value)
+                if r[1] == "obj":
+                    env[x] = ("obj", self.objvar(cn))
+                return self.wrap(pre, ("bind", cn, r[2], go(env)))
+            if is_value(r[0]):
+                cn, env = self.bind_local(tgt, x, r[0], env, value)
+                return self.wrap(pre, go(env) if r[1] == cn else ("let", cn, r[1], go(env)))
+            if r[0] in ("none", "cls") or (isinstance(r[0], tuple) and r[0][0] == "iter"):
+                if x in ("self", "_ipv4", "_ipv6"):
+                    bad(s, "rebinding of %s" % x)
+                self.coqname(tgt, x)
+                env[x] = r
+                env["@taint"] = env["@taint"] | {x} if self.tainted(value, env) else env["@taint"] - {x}
+                return self.wrap(pre, go(env))
+            bad(s, "assignment of a %s value" % show(ty))
+        if path in FIELD and path in self.attrs and r[0] == "int":
+            if env["@mut"] and env["@mut"][0] != path:
+                bad(s, "assignment to a second attribute of self")
+            if env["@break"] is not None:
+                bad(s, "state assignment inside a loop")
+            env["@mut"], env[path] = (path, r[1]), ("int", r[1])
+            return self.wrap(pre, go(env))
+        bad(s, "assignment target")
+
+    def expr_stmt(self, s, env, go):
+        v = s.value
+        if (isinstance(v, ast.Call) and isinstance(v.func, ast.Attribute) and v.func.attr == "append" and isinstance(v.func.value, ast.Name)
+                and is_list(env.get(v.func.value.id, ("",))[0]) and len(v.args) == 1 and not v.keywords):
+            l = v.func.value.id                                          # l.append(e)
+            lty, lt = env[l]
+            ty, t = self.ex(v.args[0], env)
+            if not is_value(ty):
+                bad(s, "append of a %s value" % show(ty))
+            unify(s, ("list", Cell(ty)), lty, "appended element")
+            pre = self.take_pre()
+            cn, env = self.bind_local(s, l, lty, env)
+            if self.tainted(v.args[0], env):
+                env["@taint"] = env["@taint"] | {l}
+            return self.wrap(pre, ("let", cn, "(%s ++ [%s])" % (lt, t), go(env)))
+        bad(s, "expression statement other than l.append(e)")
+
+    def if_(self, s, rest, env, k, after):
+        t, neg = s.test, False
+        if isinstance(t, ast.UnaryOp) and isinstance(t.op, ast.Not):
+            t, neg = t.operand, True
+        if isinstance(t, ast.Call) and dotted(t.func) == "isinstance":
+            return self.isinstance_(s, t, neg, rest, env, k, after)
+        c = self.bool_(s.test, env)
+        pre = self.take_pre()
+        exits = (ast.Return, ast.Raise, ast.Break, ast.Continue, ast.Try)
+        if not any(isinstance(n, exits) for st in s.body + s.orelse for n in ast.walk(st)):
+            snap = self.snapshot()
+            try:
+                return self.wrap(pre, self.join(s, c, rest, env, k, after))
+            except NoJoin:
+                self.restore(snap)
+        return self.wrap(pre, ("if", c, self.block(s.body + rest, env, k, after), self.block(s.orelse + rest, env, k, after)))
+
+    def join(self, s, c, rest, env, k, after):
+        """`if` whose branches fall through: the locals assigned in it are joined, the rest of the block follows once"""
+        names, ends = assigned_names(s.body + s.orelse), []
+
+        def end(e):
+            ends.append(e)
+            return ("jret", e)
+        a, b = self.block(s.body, env, end, rest + after), self.block(s.orelse, env, end, rest + after)
+        if any(e["@mut"] != env["@mut"] for e in ends):
+            raise NoJoin()
+        for key, val in env.items():                # compile-time bindings (None, classes, iterators) must come out unchanged
+            if not key.startswith("@") and not is_value(val[0]) and any(e.get(key) != val for e in ends):
+                raise NoJoin()
+        joined = [x for x in names if all(x in e and is_value(e[x][0]) for e in ends)]
+        if not joined or any(x in env for x in names if x not in joined):
+            raise NoJoin()
+        env = dict(env)
+        for x in names:
+            env.pop(x, None)                         # bound on one side only: unbound from here on
+        for x in joined:
+            try:
+                for e in ends[1:]:
+                    unify(s, e[x][0], ends[0][x][0], "branches of if")
+            except Untranslatable:
+                raise NoJoin()
+            env[x] = (ends[0][x][0], self.coqname(s, x))
+        env["@taint"] = frozenset().union(*[e["@taint"] for e in ends]) - (set(names) - set(joined))
+
+        def close(ir):                               # the pending ends of THIS join become tuples of the joined variables
+            if ir[0] == "jret" and isinstance(ir[1], dict):
+                return ("jret", tuple_term([ir[1][x][1] for x in joined]))
+            return tuple(close(x) if isinstance(x, tuple) and x and isinstance(x[0], str) else
+                         [(kd, ns, close(sub)) for kd, ns, sub in x] if isinstance(x, list) else x for x in ir)
+        return ("join", pattern([env[x][1] for x in joined]), ("if", c, close(a), close(b)), self.block(rest, env, k, after))
+
+    def isinstance_(self, s, t, neg, rest, env, k, after):
+        if len(t.args) != 2 or t.keywords or not isinstance(t.args[0], ast.Name):
+            bad(s, "isinstance test on something other than a name")
+        x = t.args[0].id
+        ty = env.get(x, ("",))[0]
+        yes, no = (s.orelse, s.body) if neg else (s.body, s.orelse)
+        if ty == "sarg":
+            if dotted(t.args[1]) != "_int_type" or self.mod.imports.get("_int_type") != "netaddr.compat._int_type":
+                bad(s, "isinstance test other than isinstance(<sarg parameter>, _int_type)")
+            ienv = dict(env)
+            ienv[x] = ("int", env[x][1])
+            return ("match", env[x][1], self.block(yes + rest, ienv, k, after), self.block(no + rest, env, k, after))
+        if ty == "operand":                                   # split into the four kinds, then decide the test in each arm
+            arms = []
+            for kind, fields in OPERAND:
+                aenv = dict(env)
+                names = [self.coqname(s, "%s_%s" % (x, f)) for f in fields]
+                aenv[x] = (("opnd", kind, dict(zip(fields, names))), None)
+                arms.append((kind, names, self.block([s] + rest, aenv, k, after)))
+            return ("omatch", env[x][1], arms)
+        if isinstance(ty, tuple) and ty[0] == "opnd":
+            if not isinstance(t.args[1], ast.Name):
+                bad(s, "isinstance against something other than a class name")
+            return self.block((yes if self.isinst(s, ty[1], t.args[1].id) else no) + rest, env, k, after)
+        bad(s, "isinstance test on %s, which is neither an `sarg` nor an `operand` parameter" % x)
+
+    def try_next(self, s, env, go):
+        """try: x = [IPNetwork(]_iter_next(it)[)] ... except StopIteration: raise E(...)  ->  match it with [] => Raise E | x :: it => ..."""
+        h = s.handlers[0] if len(s.handlers) == 1 else None
+        if (h is None or s.orelse or s.finalbody or dotted(h.type) != "StopIteration" or h.name or len(h.body) != 1
+                or not isinstance(h.body[0], ast.Raise) or self.mod.imports.get("_iter_next") != "netaddr.compat._iter_next"):
+            bad(s, "try statement other than `try: x = _iter_next(it) ... except StopIteration: raise E`")
+        exc = self.block(h.body, env, None, [])
+
+        def step(i, env):
+            if i == len(s.body):
+                return go(env)
+            st = s.body[i]
+            v = st.value if isinstance(st, ast.Assign) and len(st.targets) == 1 and isinstance(st.targets[0], ast.Name) else None
+            conv = isinstance(v, ast.Call) and dotted(v.func) == "IPNetwork" and len(v.args) == 1 and not v.keywords
+            nx = v.args[0] if conv else v
+            if not (isinstance(nx, ast.Call) and dotted(nx.func) == "_iter_next" and len(nx.args) == 1 and not nx.keywords
+                    and isinstance(nx.args[0], ast.Name) and env.get(nx.args[0].id, ("",))[0][0] == "iter"):
+                bad(st, "statement inside try other than x = [IPNetwork(]_iter_next(<iterator>)[)]")
+            it = nx.args[0].id
+            ity, itt = env[it]
+            elem = ity[1].find().t
+            if elem is None or (conv and elem != "net"):
+                bad(st, "IPNetwork(x) of %s (only an IPNetwork-valued x is the identity)" % show(elem or "?"))
+            env = dict(env)
+            env[it] = (ity, self.coqname(st, it))
+            cn, env = self.bind_local(st.targets[0], st.targets[0].id, elem, env, v)
+            return ("next", itt, cn, env[it][1], exc, step(i + 1, env))
+        return step(0, env)
+
+    def loop(self, s, rest, env, k, after):
+        """while / for -> a Fixpoint (class Loop) and its call; see the module docstring"""
+        iswhile = isinstance(s, ast.While)
+        if s.orelse or env["@break"] is not None or env["@mut"]:
+            bad(s, "loop with else / nested loop / loop after a state assignment")
+        name = "%s_loop%d" % (mangle(self.recv, self.name), self.loopno[id(s)])
+        assigned, loads = assigned_names(s.body), loaded_names(([s.test] if iswhile else []) + s.body)
+        it = target = elem = None
+        if not iswhile:
+            if not (isinstance(s.target, ast.Name) and isinstance(s.iter, ast.Name) and s.iter.id in env
+                    and isinstance(env[s.iter.id][0], tuple) and env[s.iter.id][0][0] in ("list", "iter")):
+                bad(s, "for loop other than `for <name> in <list or iterator variable>`")
+            it, target, elem = s.iter.id, s.target.id, env[s.iter.id][0][1].find().t
+            if elem is None or it in assigned or target in env or target in assigned_names(s.body):
+                bad(s, "for loop over a list of unknown element type, or that rebinds its list or its loop variable")
+        later = loaded_names(rest + after)
+        carried = [x for x in assigned if x in env and x != target]
+        for x in carried:
+            if not is_value(env[x][0]):
+                bad(s, "loop assigns %s, a %s" % (x, show(env[x][0])))
+        inv = [x for x in loads if x in env and x not in carried and x != it and is_value(env[x][0])]
+        for x in loads:
+            if x in env and x != it and x not in inv + carried and env[x][0] not in ("none", "cls"):
+                bad(s, "loop reads %s, a %s" % (x, show(env[x][0])))
+        live = [x for x in carried if x in later]
+        if target in later:
+            bad(s, "loop variable %s read after the loop" % target)
+        state = list(STATE[self.recv]) if "self" in loads else []
+        ienv = {key: val for key, val in env.items() if key.startswith("@") or val[0] in ("none", "cls")}
+        params = [(self.coqname(s, x), env[x][0]) for x in inv + carried]
+        for x, (cn, ty) in zip(inv + carried, params):
+            ienv[x] = (ty, cn)
+        if any(x in env["@taint"] for x in loads):       # a value computed in one iteration is read in the next one
+            ienv["@taint"] = env["@taint"] | frozenset(assigned)
+
+        def result(e):                                   # the loop stops in environment e
+            for x in live:
+                if x not in e:
+                    bad(s, "%s may be unbound when the loop stops" % x)
+                unify(s, e[x][0], env[x][0], "loop variable %s" % x)
+            return ("ret", "@loop", tuple_term([e[x][1] for x in live]), False)
+
+        def again(e):                                    # next iteration in environment e
+            for x in carried:
+                if x not in e:
+                    bad(s, "%s may be unbound at the end of the loop body" % x)
+                unify(s, e[x][0], env[x][0], "loop variable %s" % x)
+            args = ["fuel'"] * iswhile + state + [ienv[x][1] for x in inv] + ["xs'"] * (not iswhile) + [e[x][1] for x in carried]
+            return ("ret", "@loop", "(%s)" % " ".join([name] + args), True)
+        ienv["@break"], ienv["@continue"] = result, again
+        ahead = [s] + rest + after
+        if iswhile:
+            c = self.bool_(s.test, ienv)
+            ir = self.wrap(self.take_pre(), ("if", c, self.block(s.body, ienv, again, ahead), result(ienv)))
+            outcome, ps = True, [(x, "int") for x in state] + params
+        else:
+            tcn, benv = self.bind_local(s.target, target, elem, ienv, s.iter)
+            ir = (result(ienv), self.block(s.body, benv, again, ahead))
+            outcome = any(self.effects(x) for x in ir)
+            ps = ([(x, "int") for x in state] + params[:len(inv)], params[len(inv):])
+        L = Loop(name, s, iswhile, ps, tuple_type([env[x][0] for x in live]), ir, outcome, elem, None if iswhile else tcn)
+        if id(s) in self.loopmemo:
+            if repr(self.loopmemo[id(s)].ir) != repr(ir):
+                bad(s, "loop reached in two different contexts")
+        else:
+            self.loopmemo[id(s)] = L
+            self.loops.append(L)
+        # the call
+        args = state + [env[x][1] for x in inv] + ([env[it][1]] if it else []) + [env[x][1] for x in carried]
+        if iswhile:
+            spec = FUEL.get((self.recv, self.name, self.loopno[id(s)]))
+            if spec is None:
+                bad(s, "while loop %d of %s has no entry in the translator's FUEL table" % (self.loopno[id(s)], self.name))
+            args = ["(Z.to_nat %s + %d)" % (self.int_(ast.parse(spec[0], mode="eval").body, env), spec[1])] + args
+            if self.take_pre():
+                bad(s, "fuel expression that can raise")
+        env2 = {key: val for key, val in env.items() if key not in carried}
+        for x in live:
+            self.no_iterator_over(s, self.coqname(s, x), env)
+            env2[x] = (env[x][0], self.coqname(s, x))
+        env2["@taint"] = ienv["@taint"] - (set(assigned) - set(live))
+        env2["@raw"] = env["@raw"] | {n.value.id for st in s.body for n in ast.walk(st)
+                                      if isinstance(n, ast.Attribute) and isinstance(n.ctx, ast.Store) and isinstance(n.value, ast.Name)}
+        if it and env[it][0][0] == "iter":
+            if any(isinstance(n, ast.Break) for st in s.body for n in ast.walk(st)):
+                env2.pop(it)
+            else:
+                env2[it] = (env[it][0], "[]")                # exhausted
+        pat = pattern([env2[x][1] for x in live])
+        return ("bind" if outcome else "let", pat, "(%s)" % " ".join([name] + args), self.block(rest, env2, k, after))
+
+    # ---- result type and text
+    @staticmethod
+    def children(ir):
+        k = ir[0]
+        return ([ir[3]] if k in ("let", "bind") else [ir[2], ir[3]] if k in ("if", "match", "join") else [ir[4], ir[5]] if k == "next"
+                else [a[2] for a in ir[2]] if k == "omatch" else [])
+
+    def leaves(self, ir):
+        return [ir] if ir[0] in ("ret", "raise") else [x for sub in self.children(ir) for x in self.leaves(sub)]
+
+    def effects(self, ir):
+        """can evaluating this IR raise (does it have to live in `outcome`)?"""
+        return ir[0] in ("raise", "bind", "next") or (ir[0] == "ret" and ir[1] != "@loop" and ir[3]) or any(
+            self.effects(x) for x in self.children(ir))
 
     def finish(self):
         rets = [l for l in self.leaves(self.ir) if l[0] == "ret"]
-        kinds = sorted({l[1] for l in rets} - {"none"})
-        if len(kinds) != 1:
-            bad(self.f, "return values of kinds %s" % ([l[1] for l in rets] or "none"))
+        kinds = [l[1] for l in rets if l[1] != "none"]
+        if not kinds:
+            bad(self.f, "no return value")
+        for kd in kinds[1:]:
+            unify(self.f, kd, kinds[0], "return values")
         self.kind = kinds[0]
         self.optional = any(l[1] == "none" for l in rets)
-        self.outcome = (self.kind in ("obj", "net", "self") or self.has(self.ir, "raise") or self.has(self.ir, "bind")
-                        or any(l[3] for l in rets))
-        base = "(option %s)" % COQTY[self.kind] if self.optional else COQTY[self.kind]
-        self.type = "outcome " + base if self.outcome else re.sub(r"^\((.*)\)$", r"\1", base)
+        self.outcome = self.kind in ("obj", "net", "self") or self.effects(self.ir)
+        base = "(option %s)" % coqty(self.kind, self.f) if self.optional else coqty(self.kind, self.f)
+        self.type = "outcome " + base if self.outcome else unparen(base)
         self.kind = "int" if self.kind == "self" else self.kind
+        self.fresh = bool(rets) and all(l[3] and str(l[2]).startswith("(mk_net ") for l in rets)   # every result is a new object
 
-    def render(self, ir, ind):
+    def render(self, ir, ind, oc, optional=False):
+        """text of an IR; oc: does the value live in `outcome`"""
         k = ir[0]
         if k == "ret":
             _, kind, term, wrapped = ir
             if wrapped:
-                return "omap Some %s" % term if self.optional else term
-            t = "None" if kind == "none" else ("(Some %s)" % term if self.optional else term)
-            return "Ok %s" % t if self.outcome else t
+                return "omap Some %s" % term if optional else term
+            t = "None" if kind == "none" else ("(Some %s)" % term if optional else term)
+            return "Ok %s" % t if oc else t
+        if k == "jret":
+            return "Ok %s" % ir[1] if oc else ir[1]
         if k == "raise":
             return "Raise %s" % ir[1]
         i2 = ind + "  "
-        sub = lambda x: self.render(x, i2) if x[0] in ("ret", "raise") else "(" + self.render(x, i2 + " ") + ")"
+        sub = lambda x, o=oc: self.render(x, i2, o, optional) if x[0] in ("ret", "raise", "jret") else "(" + self.render(x, i2 + " ", o, optional) + ")"
         if k == "let":
-            return "let %s := %s in\n%s%s" % (ir[1], ir[2], ind, self.render(ir[3], ind))
+            return "let %s := %s in\n%s%s" % (ir[1].replace("(", "'(", 1), ir[2], ind, self.render(ir[3], ind, oc, optional))
         if k == "bind":
-            return "do %s <- %s;\n%s%s" % (ir[1], ir[2], ind, self.render(ir[3], ind))
+            return "do %s <- %s;\n%s%s" % (ir[1], ir[2], ind, self.render(ir[3], ind, oc, optional))
         if k == "if":
             return "if %s then\n%s%s\n%selse\n%s%s" % (ir[1], i2, sub(ir[2]), ind, i2, sub(ir[3]))
+        if k == "join":
+            o = self.effects(ir[2])
+            _, c, a, b = ir[2]
+            i3 = ind + "     "
+            body = "if %s then\n%s%s\n%s   else\n%s%s" % (c, i3, self.arm(a, i3, o), ind, i3, self.arm(b, i3, o))
+            return ("do %s <-\n%s  (%s);\n%s%s" if o else "let %s :=\n%s  (%s) in\n%s%s") % (
+                ir[1] if o else ir[1].replace("(", "'(", 1), ind, body, ind, self.render(ir[3], ind, oc, optional))
         if k == "match":
             return "match %s with\n%s| SInt %s =>\n%s%s\n%s| _ =>\n%s%s\n%send" % (
                 ir[1], ind, ir[1], i2, sub(ir[2]), ind, i2, sub(ir[3]), ind)
+        if k == "next":
+            return "match %s with\n%s| [] =>\n%s%s\n%s| %s :: %s =>\n%s%s\n%send" % (
+                ir[1], ind, i2, sub(ir[4]), ind, ir[2], ir[3], i2, sub(ir[5]), ind)
+        if k == "omatch":
+            return "match %s with\n%s%send" % (ir[1], "".join("%s| %s =>\n%s%s\n" % (ind, " ".join([kd] + ns), i2, sub(a)) for kd, ns, a in ir[2]), ind)
         raise AssertionError(k)
+
+    def arm(self, ir, ind, oc):
+        """one branch of a join; `let x := e in x` is written e"""
+        if ir[0] == "let" and ir[3] == ("jret", ir[1]) and not oc:
+            return ir[2]
+        return self.render(ir, ind, oc) if ir[0] in ("ret", "raise", "jret") else "(" + self.render(ir, ind + " ", oc) + ")"
+
+    def what(self):
+        if self.recv is None:
+            return self.name
+        what = "%s.%s%s" % (self.owner, self.name, " (property)" if self.is_prop else "")
+        return what + (", receiver class %s" % self.recv if self.owner != self.recv else "")
 
     def text(self):
         first = min([self.f.lineno] + [d.lineno for d in self.f.decorator_list])
-        what = "%s.%s%s" % (self.owner, self.name, " (property)" if self.is_prop else "")
-        if self.owner != self.recv:
-            what += ", receiver class %s" % self.recv
-        ps = "(%s : Z)" % " ".join(STATE[self.recv]) + "".join(" (%s : %s)" % p for p in self.params)
-        return "(* %s: %s, lines %d-%d *)\nDefinition %s %s : %s :=\n  %s.\n" % (
-            self.mod.fn, what, first, self.f.end_lineno, mangle(self.recv, self.name), ps, self.type, self.render(self.ir, "  "))
+        ps = ("(%s : Z)" % " ".join(STATE[self.recv]) if self.recv else "") + "".join(
+            " (%s : %s)" % (cn, unparen(coqty(ty, self.f))) for cn, ty in self.params)
+        return "".join(L.text(self) + "\n" for L in self.loops) + "(* %s: %s, lines %d-%d *)\nDefinition %s %s : %s :=\n  %s.\n" % (
+            self.mod.fn, self.what(), first, self.f.end_lineno, mangle(self.recv, self.name), ps.strip(), self.type,
+            self.render(self.ir, "  ", self.outcome, self.optional))
 
 
 class Translator:
@@ -504,16 +1250,17 @@ class Translator:
     def get(self, recv, name, node=None):
         key = (recv, name)
         if key in self.failed:
-            bad(node, "depends on untranslatable %s.%s" % key)
+            bad(node, "depends on untranslatable %s" % mangle(*key))
         if key in self.active:
-            bad(node, "recursive use of %s.%s" % key)
+            bad(node, "recursive use of %s" % mangle(*key))
         if key not in self.done:
-            spec = [w for w in WHITELIST if w[:2] == key]
+            spec = [w for w in WHITELIST + FUNCS if w[:2] == key]
             if not spec:
-                bad(node, "use of %s.%s, which is not in the translator's whitelist" % key)
+                bad(node, "use of %s, which is not in the translator's whitelist" % mangle(*key))
             self.active.append(key)
             try:
                 d = Fn(self, recv, name, spec[0][2])
+                d.body_text = d.text()          # also resolves every list type: fail here, scoped to this definition
             except Untranslatable as e:
                 self.failed[key] = str(e)
                 raise
@@ -558,25 +1305,37 @@ def constants():
 
 def generate():
     tr = Translator()
-    for recv, name, _ in WHITELIST:
+    for recv, name, _ in WHITELIST + FUNCS:
         assert (recv, name) not in SKIP
         try:
             tr.get(recv, name)
         except Untranslatable:
             pass
-    names = [mangle(*k) for k in tr.order]
+    names = [mangle(*k) for k in tr.order] + [L.name for k in tr.order for L in tr.done[k].loops]
     assert len(set(names)) == len(names), "name collision"
-    head = ("(* GENERATED on every run by harness/gen/pysrc.py from the text of %s and netaddr/strategy/ipv4.py, ipv6.py\n"
-            "   of the working tree; do not edit.  Proofs/GenOk_Src.v proves each definition equal to the hand-written model. *)\n"
-            "From Coq Require Import ZArith List Bool.\nFrom NV Require Import Base.PyVal Model.Ip Model.SrcPrelude.\n"
-            "Import ListNotations.\nOpen Scope Z_scope.\n\n" % IPFILE)
-    # a method outside the subset keeps its name, with a one-constructor type NAMED after the reason: every lemma that
-    # mentions it stops compiling and the Coq error (hence the replay file) spells out file, line and reason
-    fails = ""
-    for i, (k, v) in enumerate(sorted(tr.failed.items())):
-        ty = "untranslatable_%d__%s" % (i + 1, re.sub(r"[^A-Za-z0-9]+", "_", v).strip("_"))
-        fails += ("(* UNTRANSLATABLE %s.%s: %s *)\nInductive %s : Set := Untranslatable_%d.\nDefinition %s : %s := Untranslatable_%d.\n\n"
-                  % (k[0], k[1], re.sub(r"[^ -~]", "?", v).replace("*)", "* )"), ty, i + 1, mangle(*k), ty, i + 1))
-    text = head + "\n".join(constants()) + "\n" + "\n".join(tr.done[k].text() for k in tr.order) + ("\n" + fails if fails else "")
-    text.encode("ascii")
-    return {"pysrc_gen.v": text}
+    failed = sorted(tr.failed.items(), key=lambda kv: (kv[0][0] or "", kv[0][1]))
+    out = {}
+    for fn in FILES:
+        mine = [k for k in tr.order if tr.done[k].file == fn]
+        uses = sorted({tr.done[d].file for k in mine for d in tr.done[k].deps} - {fn} | ({FILES[0]} if fn != FILES[0] else set()),
+                      key=FILES.index)
+        head = ("(* GENERATED on every run by harness/gen/pysrc.py from the text of %s%s\n"
+                "   of the working tree; do not edit.  Proofs/GenOk_Src*.v prove each definition equal to the hand-written model. *)\n"
+                "From Coq Require Import ZArith List Bool.\nFrom NV Require Import Base.PyVal Model.Ip Model.SrcPrelude%s.\n"
+                "Import ListNotations.\nOpen Scope Z_scope.\n\n"
+                % (IPFILE, " and netaddr/strategy/ipv4.py, ipv6.py" if fn == FILES[0] else "",
+                   "".join(" Gen." + u[:-2] for u in uses)))
+        # a function outside the subset keeps its name, with a one-constructor type NAMED after the reason: every lemma that
+        # mentions it stops compiling and the Coq error (hence the replay file) spells out file, line and reason
+        fails = ""
+        for i, (k, v) in enumerate(failed):
+            if (FILE_OF.get(k[1], FILES[0]) if k[0] is None else FILES[0]) != fn:
+                continue
+            ty = "untranslatable_%d__%s" % (i + 1, re.sub(r"[^A-Za-z0-9]+", "_", v).strip("_"))
+            fails += ("(* UNTRANSLATABLE %s: %s *)\nInductive %s : Set := Untranslatable_%d.\nDefinition %s : %s := Untranslatable_%d.\n\n"
+                      % (mangle(*k).replace("src_", "", 1), re.sub(r"[^ -~]", "?", v).replace("*)", "* )"), ty, i + 1, mangle(*k), ty, i + 1))
+        text = head + ("\n".join(constants()) + "\n" if fn == FILES[0] else "") + "\n".join(tr.done[k].body_text for k in mine) + (
+            "\n" + fails if fails else "")
+        text.encode("ascii")
+        out[fn] = text
+    return out
